@@ -57,6 +57,44 @@ def run_mapkey(rng):
     lines = ['diff --git a/m.txt b/m.txt', 'index 1111111..2222222 100644', '--- a/m.txt', '+++ b/m.txt', '@@ -1,2 +1,2 @@',
              E_ + '[' + sgr + 'm' + kind + text + E_ + '[m', ' ' + other]
     sets = {'sub': ['map-styles-key'], 'map_key_kinds': [how]}
+    if rng.random() < 0.35:
+        # the target asks for syntax highlighting ('bold purple => syntax magenta' in the manual): the moved line is shown as
+        # the same line is shown, uncoloured, under a minus/plus style of that value - also when an ordinary changed line of
+        # the same kind stands next to it in its block
+        sets['map_key_kinds'] = [how + '+syntax-target']
+        tbg = rng.choice([53, 22, 17, 236])
+        theme = rng.choice(gen.THEMES_DARK)
+        text = 'let moved_%d = "text"; // %s' % (rng.randrange(1000), gen.rand_text(rng, 12, allow_empty=False, tabs_ok=False).replace('\x1b', ''))
+        neighbour = 'let ordinary = 1;'      # (a complete statement: it leaves the highlighter in the state it found it in)
+        order = rng.random() < 0.5
+        col = '[31m' if kind == '-' else '[32m'
+        moved_l, ord_l = E_ + '[' + sgr + 'm' + kind + text + E_ + '[m', E_ + col + kind + neighbour + E_ + '[m'
+        head = ['diff --git a/m.rs b/m.rs', 'index 1111111..2222222 100644', '--- a/m.rs', '+++ b/m.rs', '@@ -1,3 +1,3 @@']
+        colored = head + ([ord_l, moved_l] if order else [moved_l, ord_l]) + [' fn ctx() {}']
+        plain = head + ([kind + neighbour, kind + text] if order else [kind + text, kind + neighbour]) + [' fn ctx() {}']
+        base = ['--paging', 'never', '--no-gitconfig', '--syntax-theme', theme, '--true-color', 'always', '--dark']
+        a = runner.run_delta(base + ['--map-styles', '%s => syntax %d' % (key, tbg)], ('\n'.join(colored) + '\n').encode())
+        b = runner.run_delta(base + ['--minus-style' if kind == '-' else '--plus-style', 'syntax %d' % tbg], ('\n'.join(plain) + '\n').encode())
+        for r_ in (a, b):
+            c = crash_outcome(r_, ID)
+            if c is not None:
+                return c
+            if r_.rc != 0:
+                return inconclusive('exit %d: %s' % (r_.rc, r_.err[:120]), sets=sets)
+        ra = [r_ for r_ in term.decode(a.out.decode('utf-8', 'replace')) if 'moved_' in r_.text()]
+        rb = [r_ for r_ in term.decode(b.out.decode('utf-8', 'replace')) if 'moved_' in r_.text()]
+        if len(ra) != 1 or len(rb) != 1:
+            return violated('c08:map-key:line-missing', 'the moved line is shown %d times (reference %d)' % (len(ra), len(rb)), 1, len(ra), run=a, sets=sets)
+        ca = [(c_.ch, c_.fg, c_.bg, frozenset(c_.attrs)) for c_ in ra[0].cells if c_.ch.strip()]
+        cb = [(c_.ch, c_.fg, c_.bg, frozenset(c_.attrs)) for c_ in rb[0].cells if c_.ch.strip()]
+        if ca != cb:
+            k_ = next((i for i in range(min(len(ca), len(cb))) if ca[i] != cb[i]), min(len(ca), len(cb)))
+            return violated('c08:map-key:syntax-target', "a moved line mapped by --map-styles '%s => syntax %d' is not shown as the same line under a %s-style 'syntax %d' "
+                            '(an ordinary %s line stands %s it)' % (key, tbg, 'minus' if kind == '-' else 'plus', tbg, 'removed' if kind == '-' else 'added',
+                                                                  'before' if order else 'after'), repr(cb[k_:k_ + 2]), repr(ca[k_:k_ + 2]), run=a, sets=sets)
+        o = held(sig=('mapkey-syntax', how, kind, order), nontrivial=True, counters={'map_key_cases': 1, 'map_syntax_targets': 1}, sets=sets)
+        o['executions'] = 2
+        return o
     outs = []
     for tc in ('always', 'never'):
         args = ['--paging', 'never', '--no-gitconfig', '--syntax-theme', 'none', '--true-color', tc, '--map-styles', '%s => bold %d' % (key, tfg)]
